@@ -11,6 +11,8 @@
                    3 = HandleAfterLocation: cluster name + cluster conf looked up; 4 = HandleForward: balancer looked up and
                    backend chosen; 0 = run to completion)               -> view
      [4 rid hp]   let the held request rid continue to hold point hp (greater than its current one, or 0 = completion) -> view
+     [7]          one more request on the case's PERSISTENT keep-alive client connection (opened at first use), run to
+                  completion: every request takes its own snapshot, also on a connection accepted under an older one -> view
      [5 seed nreq nrel vf gf]  concurrent burst: 4 client goroutines x nreq requests, while nrel server-data reloads cycle
                   through the versions and gslb reloads alternate; afterwards version vf and generation gf are installed
                   sequentially                                          -> [ok]  ok = 1 iff every response of the burst was 200 and
@@ -28,7 +30,7 @@ Definition NG : Z := 2.
 
 Inductive hop :=
 | HReload (v : Z) | HBadReload (v : Z) | HGslb (g : Z)
-| HStart (rid : nat) (hp : Z) | HCont (rid : nat) (hp : Z)
+| HStart (rid : nat) (hp : Z) | HCont (rid : nat) (hp : Z) | HKeep
 | HBurst (seed nreq nrel vf gf : Z).
 
 Definition in_range (lo hi x : Z) : bool := (lo <=? x) && (x <=? hi).
@@ -40,6 +42,7 @@ Definition decode_op (v : val) : option hop :=
   | VL [VZ 2; VZ g] => if in_range 1 NG g then Some (HGslb g) else None
   | VL [VZ 3; VZ rid; VZ hp] => if in_range 0 2 rid && in_range 0 4 hp then Some (HStart (Z.to_nat rid) hp) else None
   | VL [VZ 4; VZ rid; VZ hp] => if in_range 0 2 rid && in_range 0 4 hp then Some (HCont (Z.to_nat rid) hp) else None
+  | VL [VZ 7] => Some HKeep
   | VL [VZ 5; VZ seed; VZ nreq; VZ nrel; VZ vf; VZ gf] =>
     if in_range 0 1000000 seed && in_range 1 6 nreq && in_range 0 3 nrel && in_range 1 NV vf && in_range 1 NG gf
     then Some (HBurst seed nreq nrel vf gf) else None
@@ -149,6 +152,13 @@ Definition exec_op (h : hstate) (o : hop) : option (hstate * val) :=
     | None => None
     | Some i => if (hp =? 0) || (h_hp h rid <? hp) then advance h rid i hp else None
     end
+  | HKeep =>
+    let '(st, i) := add_thread (h_st h) new_request in
+    let st' := run_req_to 8 st i 6 in
+    match req_at st' i with
+    | Some q => if negb (Nat.eqb (rq_pc q) 6) then None else Some (mkH st' (h_slot h) (h_hp h), view_of q)
+    | None => None
+    end
   | HBurst seed nreq nrel vf gf =>
     let '(st', ok) := burst (h_st h) seed nreq nrel vf gf in
     Some (mkH st' (h_slot h) (h_hp h), VL [vbool ok])
@@ -224,6 +234,7 @@ Definition prop_op (p : pstate) (o : hop) (v : val) : option pstate :=
                   end
                 else None
     end
+  | HKeep => match check_view (p_cur p) (p_gen p) 0 0 v with Some _ => Some p | None => None end
   | HBurst _ _ _ vf gf => if val_eqb v (VL [VZ 1]) then Some (mkP vf gf (p_exp p) (p_g p) (p_php p)) else None
   end.
 
@@ -239,8 +250,8 @@ Definition prop_C15 (i o : val) : bool :=
   match decode_C15 i with
   | Some ops =>
     match o with
-    | VL vs => if val_eqb o (VErr 0) then match exec_ops h_init ops with None => true | Some _ => false end
-               else prop_ops p_init ops vs
+    | VL vs => prop_ops p_init ops vs
+               || (val_eqb o (VErr 0) && match exec_ops h_init ops with None => true | Some _ => false end)
     | _ => false
     end
   | None => val_eqb o (VErr 0)
